@@ -39,18 +39,32 @@ Inductive subset :=
 | SIdx (l : list Z).                      (* integer index list, negative = from the end *)
 
 (* Python's slice.indices(N) followed by range(start, stop, step) *)
+Definition slice_step (c : option Z) : Z := match c with None => 1%Z | Some s => s end.
+Definition slice_lower (st : Z) : Z := if (0 <? st)%Z then 0%Z else (-1)%Z.
+Definition slice_upper (N st : Z) : Z := if (0 <? st)%Z then N else (N - 1)%Z.
+Definition slice_clamp (N st v : Z) : Z :=
+  if (v <? 0)%Z then Z.max (v + N) (slice_lower st) else Z.min v (slice_upper N st).
+Definition slice_start (N st : Z) (a : option Z) : Z :=
+  match a with
+  | None => if (st <? 0)%Z then slice_upper N st else slice_lower st
+  | Some v => slice_clamp N st v
+  end.
+Definition slice_stop (N st : Z) (b : option Z) : Z :=
+  match b with
+  | None => if (st <? 0)%Z then slice_lower st else slice_upper N st
+  | Some v => slice_clamp N st v
+  end.
+(* len(range(s, e, st)) *)
+Definition slice_count (st s e : Z) : Z :=
+  if (0 <? st)%Z
+  then (if (s <? e)%Z then ((e - s - 1) / st + 1)%Z else 0%Z)
+  else (if (e <? s)%Z then ((s - e - 1) / (- st) + 1)%Z else 0%Z).
 Definition slice_indices (N : Z) (start stop step : option Z) : result (list nat) :=
-  let st := match step with None => 1%Z | Some s => s end in
+  let st := slice_step step in
   if (st =? 0)%Z then Error ValueError else
-  let lower := if (0 <? st)%Z then 0%Z else (-1)%Z in
-  let upper := if (0 <? st)%Z then N else (N - 1)%Z in
-  let clampi := fun v : Z => if (v <? 0)%Z then Z.max (v + N) lower else Z.min v upper in
-  let s := match start with None => if (st <? 0)%Z then upper else lower | Some v => clampi v end in
-  let e := match stop with None => if (st <? 0)%Z then lower else upper | Some v => clampi v end in
-  let n := if (0 <? st)%Z
-           then (if (s <? e)%Z then ((e - s - 1) / st + 1)%Z else 0%Z)
-           else (if (e <? s)%Z then ((s - e - 1) / (- st) + 1)%Z else 0%Z) in
-  Ok (map (fun i => Z.to_nat (s + Z.of_nat i * st)%Z) (seq 0 (Z.to_nat n))).
+  let s := slice_start N st start in
+  let e := slice_stop N st stop in
+  Ok (map (fun i => Z.to_nat (s + Z.of_nat i * st)%Z) (seq 0 (Z.to_nat (slice_count st s e)))).
 
 Fixpoint mask_indices (i : nat) (m : list bool) : list nat :=
   match m with
